@@ -1,12 +1,445 @@
-//! C04 — not built yet.
-use crate::runner::{Outcome, Summary};
-use crate::Ctx;
-use serde_json::Value;
+//! C04 — programs built through the API serialize to text that parses back.
+//!
+//! replay: TLC cases {prog, text, t1, has_ph, ambiguous} from spec/mc/MC_QuilPrint.tla (Family "C04").  The values
+//!         are built with the public constructors (c02::from_abs), put into a Program, and
+//!           * to_quil_or_debug must return (a panic is a violation of "the debug serializer never fails");
+//!           * with a placeholder, to_quil must fail with an unresolved-placeholder error;
+//!           * without, to_quil must succeed, the text must parse, and the result must be equivalent:
+//!             equal, with expressions compared by value (evaluated at three assignments).
+//! drive:  seeded random values beyond the model's bound (deeper expressions, every kind); events
+//!         value/vprinted/vdone go to spec/trace/QuilPrintTrace.tla where the model printer must reproduce the
+//!         real text and the placeholder law / round-trip verdict are evaluated by TLC on the recorded outcome.
+//!
+//! Known findings (tagged, never hidden):
+//!   call-immediate-sign-or-complex       CALL immediates that print with a sign or as a sum (DESIGN §7, 11)
+//! (two DELAY findings of this check were repaired in /repo: bf4c513, 57c1d21 -- see known_findings.d/C04.json)
 
-pub fn replay(_ctx: &Ctx, _case: &Value) -> Outcome {
-    panic!("C04: replay not implemented")
+use super::c02::{self, AbsCtx, ExprMode, PhCtx};
+use crate::runner::{Outcome, Summary, Violation};
+use crate::util;
+use crate::Ctx;
+use quil_rs::instruction::{Instruction, UnresolvedCallArgument};
+use quil_rs::quil::{Quil, ToQuilError};
+use quil_rs::Program;
+use rand::seq::SliceRandom;
+use rand::Rng;
+use serde_json::{json, Value};
+use std::str::FromStr;
+
+pub const FINDING_CALL: &str = "call-immediate-sign-or-complex";
+
+fn contains_ph(v: &Value) -> bool {
+    match v {
+        Value::Object(m) => m.get("t").and_then(|t| t.as_str()) == Some("ph") || m.values().any(contains_ph),
+        Value::Array(a) => a.iter().any(contains_ph),
+        _ => false,
+    }
 }
 
-pub fn drive(_ctx: &Ctx) -> Summary {
-    panic!("C04: drive not implemented")
+/// DESIGN §10: the value has an expression, string or numeric operand position
+fn nontrivial(v: &Value) -> bool {
+    match v {
+        Value::Object(m) => {
+            matches!(m.get("t").and_then(|t| t.as_str()),
+                     Some("num" | "pi" | "var" | "addr" | "neg" | "pos" | "inf" | "fn" | "int" | "real" | "str" | "imm"))
+                || m.contains_key("filename")
+                || m.get("frame_names").map(|f| f.as_array().map(|a| !a.is_empty()).unwrap_or(false)).unwrap_or(false)
+                || m.get("data").map(|d| d.get("some").is_some()).unwrap_or(false)
+                || m.values().any(nontrivial)
+        }
+        Value::Array(a) => a.iter().any(nontrivial),
+        _ => false,
+    }
+}
+
+pub fn approx_eq(a: &Value, b: &Value) -> bool {
+    let sensitive = |v: &Value| v.get("t").and_then(|t| t.as_str()) == Some("val") && v["v"].as_str() == Some("branch-cut-sensitive");
+    if sensitive(a) || sensitive(b) {
+        return true; // not judged (see c02::expr_values)
+    }
+    match (a, b) {
+        (Value::Number(x), Value::Number(y)) => {
+            let (x, y) = (x.as_f64().unwrap(), y.as_f64().unwrap());
+            x == y || (x - y).abs() <= 1e-9 * x.abs().max(y.abs()).max(1.0)
+        }
+        (Value::Array(x), Value::Array(y)) => x.len() == y.len() && x.iter().zip(y).all(|(p, q)| approx_eq(p, q)),
+        (Value::Object(x), Value::Object(y)) => x.len() == y.len() && x.iter().all(|(k, p)| y.get(k).map(|q| approx_eq(p, q)).unwrap_or(false)),
+        _ => a == b,
+    }
+}
+
+fn by_value(is: &[Instruction]) -> Value {
+    let mut ph = PhCtx::default();
+    Value::Array(is.iter().map(|i| c02::to_abs_with(i, &mut AbsCtx { mode: ExprMode::Value, ph: &mut ph })).collect())
+}
+
+/// the instructions and, recursively, the instructions of their bodies
+fn flatten(is: &[Instruction], out: &mut Vec<Instruction>) {
+    for i in is {
+        out.push(i.clone());
+        match i {
+            Instruction::CalibrationDefinition(d) => flatten(&d.instructions, out),
+            Instruction::MeasureCalibrationDefinition(d) => flatten(&d.instructions, out),
+            Instruction::CircuitDefinition(d) => flatten(&d.instructions, out),
+            _ => {}
+        }
+    }
+}
+fn flat(is: &[Instruction]) -> Vec<Instruction> {
+    let mut out = vec![];
+    flatten(is, &mut out);
+    out
+}
+
+/// a CALL immediate that prints with a leading minus or as a sum of two parts (anywhere, bodies included)
+fn call_immediate_signed(is: &[Instruction]) -> bool {
+    flat(is).iter().any(|i| match i {
+        Instruction::Call(c) => c.arguments().iter().any(|a| match a {
+            UnresolvedCallArgument::Immediate(v) => {
+                (v.re != 0.0 && v.im != 0.0) || (v.re < 0.0) || (v.im < 0.0)
+            }
+            _ => false,
+        }),
+        _ => false,
+    })
+}
+
+#[allow(dead_code)]
+pub struct Verdict {
+    pub text: Option<String>,
+    pub debug_text: String,
+    pub fails: bool,
+    pub parsed: bool,
+    pub equivalent: bool,
+}
+
+/// The statement of C04 on one program value.  Violations are pushed into `o`.
+pub fn check_value(o: &mut Outcome, instrs: &[Instruction], has_ph: bool, label: &str) -> Verdict {
+    let mut program = Program::new();
+    program.add_instructions(instrs.to_vec());
+    let listing = program.to_instructions();
+    // the debug serializer never fails: it returns (a panic is caught by the worker and reported as such)
+    let debug_text = program.to_quil_or_debug();
+    for i in instrs {
+        let _ = i.to_quil_or_debug();
+    }
+    let mut v = Verdict { text: None, debug_text, fails: false, parsed: false, equivalent: false };
+    match program.to_quil() {
+        Err(e) => {
+            v.fails = true;
+            let unresolved = matches!(e, ToQuilError::UnresolvedQubitPlaceholder | ToQuilError::UnresolvedLabelPlaceholder);
+            if !has_ph {
+                o.violate(Violation::new("serialization succeeds without placeholders", json!("Ok"), json!(e.to_string())).note(label));
+            } else if !unresolved {
+                o.violate(Violation::new("serialization fails with an unresolved-placeholder error", json!("Unresolved*Placeholder"), json!(e.to_string())).note(label));
+            }
+        }
+        Ok(text) => {
+            v.text = Some(text.clone());
+            if has_ph {
+                o.violate(Violation::new("serialization fails when a placeholder is present", json!("Err(Unresolved*Placeholder)"), json!(text)).note(label));
+                return v;
+            }
+            match Program::from_str(&text) {
+                Err(e) => {
+                    let mut viol = Violation::new("printed text parses", json!("Ok"), json!(format!("{e}"))).note(format!("{label}: {text:?}"));
+                    if call_immediate_signed(&listing) {
+                        viol = viol.finding(FINDING_CALL);
+                    }
+                    o.violate(viol);
+                }
+                Ok(p1) => {
+                    v.parsed = true;
+                    let l1 = p1.to_instructions();
+                    let (a, b) = (by_value(&listing), by_value(&l1));
+                    if a.to_string().contains("branch-cut-sensitive") || b.to_string().contains("branch-cut-sensitive") {
+                        o.count("holds an expression not judged by value (sign of zero selects a branch)");
+                    }
+                    if approx_eq(&a, &b) {
+                        v.equivalent = true;
+                    } else {
+                        let mut viol = Violation::new("re-parsed program is equivalent", json!(c02::program_abs(&program)), json!(c02::program_abs(&p1)))
+                            .note(format!("{label}: {text:?}; by value: {a} vs {b}"));
+                        if call_immediate_signed(&listing) {
+                            viol = viol.finding(FINDING_CALL);
+                        }
+                        o.violate(viol);
+                    }
+                }
+            }
+        }
+    }
+    v
+}
+
+pub fn replay(_ctx: &Ctx, case: &Value) -> Outcome {
+    let prog = match case.get("history") {
+        Some(h) => vec![h[0]["v"].clone()],
+        None => case["prog"].as_array().expect("prog").clone(),
+    };
+    let mut ph = PhCtx::default();
+    let instrs: Vec<Instruction> = prog.iter().map(|v| c02::from_abs_with(v, &mut ph)).collect();
+    let has_ph = prog.iter().any(contains_ph);
+    let mut o = Outcome::ok(prog.iter().any(nontrivial));
+    for v in &prog {
+        o.count(v["k"].as_str().unwrap_or("?"));
+    }
+    // the abstraction function must be the inverse of from_abs on the alphabet (else the case is not what TLC meant)
+    for (v, i) in prog.iter().zip(&instrs) {
+        let back = c02::strip_q(&c02::to_abs(i));
+        if back != c02::strip_q(v) && !has_ph {
+            o.diverge(format!("to_abs(from_abs(v)) # v: {back} vs {v}"));
+        }
+    }
+    let verdict = check_value(&mut o, &instrs, has_ph, "model case");
+    if case.get("history").is_some() {
+        return o;
+    }
+    // model vs code (informational)
+    if case["has_ph"].as_bool() != Some(has_ph) {
+        o.diverge("model and harness disagree on the presence of a placeholder".to_string());
+    }
+    if !has_ph {
+        if let (Some(t), Some(want)) = (&verdict.text, case["t1"].as_str()) {
+            if t != want {
+                o.diverge(format!("printed text {t:?} differs from the model's {want:?}"));
+            }
+        }
+        if case["ambiguous"].as_bool().unwrap_or(false) {
+            o.diverge("the model finds the printed DELAY ambiguous".to_string());
+        }
+    }
+    o
+}
+
+// ------------------------------------------------------------------------------------------- drive
+
+/// magnitudes the trace specification knows (spec/trace/QuilPrintTrace.tla TraceMags)
+const MAGS: &[f64] = &[0.0, 1.0, 2.0, 3.0, 0.5, 1.5, 10.0, 0.25];
+const NAMES: &[&str] = &["ro", "Theta", "a-b", "_x1", "m2"];
+
+fn pick(r: &mut impl Rng, xs: &[&'static str]) -> &'static str {
+    xs[r.gen_range(0..xs.len())]
+}
+fn pick_perm(r: &mut impl Rng) -> Value {
+    match r.gen_range(0..3) {
+        0 => json!([0, 1]),
+        1 => json!([1, 0]),
+        _ => json!([0, 2, 1, 3]),
+    }
+}
+
+fn r_num(r: &mut impl Rng, api: bool) -> Value {
+    let m = |r: &mut dyn rand::RngCore| *MAGS.choose(r).unwrap();
+    let (re, im) = match r.gen_range(0..10) {
+        0..=5 => (m(r), 0.0),
+        6..=7 => (0.0, m(r)),
+        _ if api => (m(r), m(r)),
+        _ => (m(r), 0.0),
+    };
+    let s = |r: &mut dyn rand::RngCore, x: f64| if api && r.gen_bool(0.3) { -x } else { x };
+    c02::num_abs(&num_complex::Complex64::new(s(r, re), s(r, im)))
+}
+
+pub fn r_expr(r: &mut impl Rng, depth: u32, api: bool) -> Value {
+    if depth == 0 || r.gen_bool(0.3) {
+        return match r.gen_range(0..10) {
+            0..=4 => r_num(r, api),
+            5 => json!({"t": "pi"}),
+            6..=7 => json!({"t": "var", "v": pick(r, NAMES)}),
+            _ => json!({"t": "addr", "m": {"name": pick(r, NAMES), "index": r.gen_range(0..3)}}),
+        };
+    }
+    match r.gen_range(0..10) {
+        0..=5 => json!({"t": "inf", "op": pick(r, &["+", "-", "*", "/", "^"]),
+                        "l": r_expr(r, depth - 1, api), "r": r_expr(r, depth - 1, api)}),
+        6..=7 => json!({"t": "neg", "e": r_expr(r, depth - 1, api)}),
+        8 if api => json!({"t": "pos", "e": r_expr(r, depth - 1, api)}),
+        _ => json!({"t": "fn", "f": pick(r, &["cis", "cos", "exp", "sin", "sqrt"]), "e": r_expr(r, depth - 1, api)}),
+    }
+}
+
+fn r_qubit(r: &mut impl Rng, ph: bool) -> Value {
+    match r.gen_range(0..10) {
+        0..=5 => json!({"t": "fixed", "n": r.gen_range(0..5)}),
+        6..=8 => json!({"t": "var", "s": pick(r, &["q", "r", "Q1"])}),
+        _ if ph => json!({"t": "ph", "id": r.gen_range(1..3)}),
+        _ => json!({"t": "fixed", "n": 7}),
+    }
+}
+fn r_qubits(r: &mut impl Rng, min: usize, ph: bool) -> Value {
+    let n = r.gen_range(min..=min + 2);
+    Value::Array((0..n).map(|_| r_qubit(r, ph)).collect())
+}
+fn r_string(r: &mut impl Rng) -> Value {
+    let n = r.gen_range(0..6);
+    c02::chars(&(0..n).map(|_| *['a', 'b', ' ', '"', '\\', '#', 'x', '/'].choose(r).unwrap()).collect::<String>())
+}
+fn r_frame(r: &mut impl Rng, ph: bool) -> Value {
+    json!({"name": r_string(r), "qubits": r_qubits(r, 1, ph)})
+}
+fn r_mref(r: &mut impl Rng) -> Value {
+    json!({"name": pick(r, NAMES), "index": r.gen_range(0..4)})
+}
+fn r_wf(r: &mut impl Rng, d: u32, api: bool) -> Value {
+    let keys = ["duration", "fwhm", "iq", "t0"];
+    let n = r.gen_range(0..=3);
+    let params: Vec<Value> = keys[..n].iter().map(|k| json!({"key": k, "val": r_expr(r, d, api)})).collect();
+    let ext = if r.gen_bool(0.3) { json!({"some": "sub"}) } else { json!({"none": true}) };
+    json!({"base": pick(r, &["flat", "gaussian", "wf_1"]), "ext": ext, "params": params})
+}
+fn r_operand(r: &mut impl Rng, real: bool) -> Value {
+    match r.gen_range(0..3) {
+        0 => json!({"t": "int", "neg": r.gen_bool(0.4), "lex": r.gen_range(0..1000u32).to_string()}),
+        1 if real => json!({"t": "real", "neg": r.gen_bool(0.4), "lex": pick(r, &["2.0", "0.5", "1e20", "1e-7", "3.25", "100.0"])}),
+        _ => json!({"t": "mref", "m": r_mref(r)}),
+    }
+}
+fn r_gate(r: &mut impl Rng, d: u32, api: bool, ph: bool) -> Value {
+    let np = r.gen_range(0..3);
+    let mods: Vec<&str> = (0..r.gen_range(0..3)).map(|_| pick(r, &["CONTROLLED", "DAGGER", "FORKED"])).collect();
+    json!({"k": "Gate", "name": pick(r, &["X", "RX", "my-gate", "Sin2"]),
+           "params": (0..np).map(|_| r_expr(r, d, api)).collect::<Vec<_>>(), "qubits": r_qubits(r, 1, ph), "mods": mods})
+}
+
+/// a random instruction value of any kind (api: values only the constructors can build; ph: placeholders allowed)
+pub fn r_instr(r: &mut impl Rng, d: u32, api: bool, ph: bool, nested: bool) -> Value {
+    let none = json!({"none": true});
+    let body = |r: &mut dyn rand::RngCore| -> Value {
+        let n = r.gen_range(1..=3);
+        Value::Array((0..n).map(|_| loop {
+            let mut rr = &mut *r;
+            let i = r_instr(&mut rr, d.min(2), api, ph, true);
+            if !matches!(i["k"].as_str().unwrap(), "DefCal" | "DefCalMeasure" | "DefCircuit" | "DefGate" | "DefWaveform" | "DefFrame" | "Declare" | "Include" | "Label") {
+                break i;
+            }
+        }).collect())
+    };
+    let top = if nested { 22 } else { 30 };
+    match r.gen_range(0..top) {
+        0 | 1 => r_gate(r, d, api, ph),
+        2 => json!({"k": "Measure", "name": if r.gen_bool(0.3) { json!({"some": "fast"}) } else { none.clone() }, "qubit": r_qubit(r, ph),
+                    "target": if r.gen_bool(0.6) { json!({"some": r_mref(r)}) } else { none.clone() }}),
+        3 => json!({"k": "Reset", "qubit": if r.gen_bool(0.5) { json!({"some": r_qubit(r, ph)}) } else { none.clone() }}),
+        4 | 5 => {
+            let nf = r.gen_range(0..3);
+            json!({"k": "Delay", "duration": r_expr(r, d, api), "frame_names": (0..nf).map(|_| r_string(r)).collect::<Vec<_>>(),
+                   "qubits": r_qubits(r, if api { 0 } else { 1 }, ph)})
+        }
+        6 => json!({"k": "Fence", "qubits": r_qubits(r, 0, ph)}),
+        7 => json!({"k": "Pulse", "blocking": r.gen_bool(0.5), "frame": r_frame(r, ph), "waveform": r_wf(r, d, api)}),
+        8 => json!({"k": "Capture", "blocking": r.gen_bool(0.5), "frame": r_frame(r, ph), "waveform": r_wf(r, d, api), "mref": r_mref(r)}),
+        9 => json!({"k": "RawCapture", "blocking": r.gen_bool(0.5), "frame": r_frame(r, ph), "duration": r_expr(r, d, api), "mref": r_mref(r)}),
+        10 | 11 => json!({"k": "FrameExpr", "cmd": pick(r, &["SET-FREQUENCY", "SET-PHASE", "SET-SCALE", "SHIFT-FREQUENCY", "SHIFT-PHASE"]),
+                          "frame": r_frame(r, ph), "e": r_expr(r, d, api)}),
+        12 => json!({"k": "SwapPhases", "frame_1": r_frame(r, ph), "frame_2": r_frame(r, ph)}),
+        13 => json!({"k": "Arith", "op": pick(r, &["ADD", "SUB", "MUL", "DIV"]), "dst": r_mref(r), "src": r_operand(r, true)}),
+        14 => json!({"k": "Logic", "op": pick(r, &["AND", "IOR", "XOR", "SHL", "SHR", "ASHR"]), "dst": r_mref(r), "src": r_operand(r, false)}),
+        15 => json!({"k": "Move", "dst": r_mref(r), "src": r_operand(r, true)}),
+        16 => json!({"k": "Compare", "op": pick(r, &["EQ", "GE", "GT", "LE", "LT"]), "dst": r_mref(r), "lhs": r_mref(r), "rhs": r_operand(r, true)}),
+        17 => match r.gen_range(0..5) {
+            0 => json!({"k": "Unary", "op": pick(r, &["NEG", "NOT"]), "operand": r_mref(r)}),
+            1 => json!({"k": "Convert", "dst": r_mref(r), "src": r_mref(r)}),
+            2 => json!({"k": "Exchange", "left": r_mref(r), "right": r_mref(r)}),
+            3 => json!({"k": "Load", "dst": r_mref(r), "source": pick(r, NAMES), "offset": r_mref(r)}),
+            _ => json!({"k": "Store", "destination": pick(r, NAMES), "offset": r_mref(r), "src": r_operand(r, true)}),
+        },
+        18 => {
+            let t = if ph && r.gen_bool(0.2) { json!({"t": "ph", "id": r.gen_range(1..3)}) } else { json!({"t": "fixed", "s": pick(r, &["end", "loop-1", "L_2"])}) };
+            match r.gen_range(0..3) {
+                0 => json!({"k": "Jump", "target": t}),
+                1 => json!({"k": "JumpWhen", "target": t, "cond": r_mref(r)}),
+                _ => json!({"k": "JumpUnless", "target": t, "cond": r_mref(r)}),
+            }
+        }
+        19 => json!({"k": pick(r, &["Halt", "Nop", "Wait"])}),
+        20 => {
+            let na = r.gen_range(0..3);
+            json!({"k": "Pragma", "name": pick(r, &["foo", "LOAD-MEMORY", "x_1"]),
+                   "args": (0..na).map(|_| if r.gen_bool(0.5) { json!({"t": "id", "s": pick(r, NAMES)}) } else { json!({"t": "int", "lex": r.gen_range(0..99u32).to_string()}) }).collect::<Vec<_>>(),
+                   "data": if r.gen_bool(0.5) { json!({"some": r_string(r)}) } else { none.clone() }})
+        }
+        21 => {
+            let na = r.gen_range(0..4);
+            json!({"k": "Call", "name": pick(r, &["f", "ext_fn"]),
+                   "args": (0..na).map(|_| match r.gen_range(0..3) {
+                       0 => json!({"t": "id", "s": pick(r, NAMES)}),
+                       1 => json!({"t": "mref", "m": r_mref(r)}),
+                       _ => {
+                           let signed = api && r.gen_bool(0.3);
+                           json!({"t": "imm", "v": r_num(r, signed)})
+                       }
+                   }).collect::<Vec<_>>()})
+        }
+        22 => json!({"k": "Label", "target": {"t": "fixed", "s": pick(r, &["end", "loop-1"])}}),
+        23 => json!({"k": "Include", "filename": r_string(r)}),
+        24 => {
+            let sharing = if r.gen_bool(0.5) {
+                let no = r.gen_range(0..3);
+                json!({"some": {"name": pick(r, NAMES), "offsets": (0..no).map(|_| json!({"offset": r.gen_range(0..9), "ty": pick(r, &["BIT", "REAL", "INTEGER", "OCTET"])})).collect::<Vec<_>>()}})
+            } else {
+                none.clone()
+            };
+            json!({"k": "Declare", "name": pick(r, NAMES), "size": {"ty": pick(r, &["BIT", "REAL", "INTEGER", "OCTET"]), "len": r.gen_range(1..9)}, "sharing": sharing})
+        }
+        25 => {
+            let g = r_gate(r, d, api, ph);
+            json!({"k": "DefCal", "name": g["name"], "params": g["params"], "qubits": g["qubits"], "mods": g["mods"], "body": body(r)})
+        }
+        26 => json!({"k": "DefCalMeasure", "name": if r.gen_bool(0.3) { json!({"some": "fast"}) } else { none.clone() }, "qubit": r_qubit(r, ph),
+                     "target": if r.gen_bool(0.5) { json!({"some": "addr"}) } else { none.clone() }, "body": body(r)}),
+        27 => json!({"k": "DefCircuit", "name": pick(r, &["BELL", "c-1"]), "params": if r.gen_bool(0.5) { json!(["a", "b"]) } else { json!([]) },
+                     "qubit_variables": if r.gen_bool(0.5) { json!(["q", "r"]) } else { json!([]) }, "body": body(r)}),
+        28 => {
+            let na = r.gen_range(1..=3);
+            let attrs: Vec<Value> = ["DIRECTION", "INITIAL-FREQUENCY", "HARDWARE-OBJECT"][..na].iter().map(|k| json!({"key": k, "val":
+                if r.gen_bool(0.5) { json!({"t": "str", "s": r_string(r)}) } else { json!({"t": "expr", "e": r_expr(r, d, api)}) }})).collect();
+            json!({"k": "DefFrame", "id": r_frame(r, ph), "attrs": attrs})
+        }
+        _ => match r.gen_range(0..4) {
+            0 => {
+                let n = r.gen_range(1..=3);
+                json!({"k": "DefWaveform", "base": "wf", "ext": if r.gen_bool(0.3) { json!({"some": "sub"}) } else { none.clone() },
+                       "params": if r.gen_bool(0.5) { json!(["t"]) } else { json!([]) }, "matrix": (0..n).map(|_| r_expr(r, d, api)).collect::<Vec<_>>()})
+            }
+            1 => {
+                let n = r.gen_range(1..=2usize);
+                let rows: Vec<Value> = (0..n).map(|_| Value::Array((0..n).map(|_| r_expr(r, d, api)).collect())).collect();
+                json!({"k": "DefGate", "name": "G", "params": if r.gen_bool(0.5) { json!(["a"]) } else { json!([]) }, "spec": {"t": "matrix", "rows": rows}})
+            }
+            2 => json!({"k": "DefGate", "name": "U", "params": [], "spec": {"t": "pauli", "args": ["p", "q"],
+                        "terms": [{"word": pick(r, &["XY", "ZZ", "IX"]), "e": r_expr(r, d, api), "args": ["p", "q"]},
+                                  {"word": "Y", "e": r_expr(r, d, api), "args": ["q"]}]}}),
+            _ => json!({"k": "DefGate", "name": "P", "params": [], "spec": {"t": "perm", "p": pick_perm(r)}}),
+        },
+    }
+}
+
+/// the two known-finding families, decided on the value (same predicates as the trace specification)
+pub fn drive(ctx: &Ctx) -> Summary {
+    let n = ctx.arg_u64("n", 200);
+    let depth = ctx.arg_u64("depth", 4) as u32;
+    let path = ctx.arg_str("out").expect("--out");
+    let mut out = std::io::BufWriter::new(std::fs::File::create(path).expect("create trace"));
+    let mut rng = util::rng(ctx.seed, 4);
+    let mut sum = Summary::default();
+    for h in 0..n {
+        let with_ph = h % 5 == 4;
+        let v = r_instr(&mut rng, depth, true, with_ph, false);
+        let has_ph = contains_ph(&v);
+        let mut ph = PhCtx::default();
+        let instr = c02::from_abs_with(&v, &mut ph);
+        let mut o = Outcome::ok(nontrivial(&v));
+        o.count(v["k"].as_str().unwrap());
+        util::emit(&mut out, &json!({"ev": "reset", "fam": "value", "v": v}));
+        let verdict = check_value(&mut o, std::slice::from_ref(&instr), has_ph, "random value");
+        let one = instr.to_quil_or_debug();
+        util::emit(&mut out, &json!({"ev": "vprinted", "ok": !verdict.fails,
+                                     "text": if verdict.fails { json!("") } else { json!(instr.to_quil().unwrap_or_default()) },
+                                     "debug_len": one.len()}));
+        util::emit(&mut out, &json!({"ev": "vdone", "fails": verdict.fails, "parsed": verdict.parsed, "equivalent": verdict.equivalent}));
+        o.count_n("events", 3);
+        sum.absorb(&json!({"v": v}), &o, true);
+    }
+    sum
 }
